@@ -151,6 +151,9 @@ func (d *Discharger) run(obls []*Obligation) {
 }
 
 func (d *Discharger) discharge(i int, o *Obligation) {
+	if o.Pre {
+		return
+	}
 	var gv []string
 	if !o.Cover && o.Replay != nil {
 		gv = o.Replay.getValuesAt(o.Prefix)
